@@ -38,6 +38,8 @@ type caseState struct {
 	gate   string
 	gateAt int // index of the middleware whose before-stage waits on the gate (-1: none)
 
+	targets []string // by chain index: the method a rewriting middleware sets ("" otherwise)
+
 	nmu    sync.Mutex
 	notifs map[string]int // notification handler deliveries by method
 }
@@ -165,7 +167,8 @@ func (cs *caseState) mw(i int, b beh) mcp.Middleware {
 			}
 			marks, fm := cs.visibleMarks(ctx, id)
 			csid, gsid := sessOf(ctx)
-			cs.record(id, obsStage{mStage: mStage{Stage: fmt.Sprintf("m%d-before", i), Marks: marks, Tag: tagOf(req.Params)}, CS: csid, GS: gsid, ForeignMark: fm})
+			tag := tagOf(req.Params)
+			cs.record(id, obsStage{mStage: mStage{Stage: fmt.Sprintf("m%d-before", i), Meth: req.Method, Marks: marks, Tag: tag}, CS: csid, GS: gsid, ForeignMark: fm})
 			if i == 0 {
 				n := cs.inflight.Add(1)
 				for {
@@ -190,6 +193,26 @@ func (cs *caseState) mw(i int, b beh) mcp.Middleware {
 				r2 := *req
 				r2.Params = withTagSuffix(req.Params, fmt.Sprintf("+m%d", i))
 				res, err = next(context.WithValue(ctx, markKey(i), id), &r2)
+				inner = innerClass(res, err)
+			case bModIn: // same object, new params
+				req.Params = withTagSuffix(req.Params, fmt.Sprintf("+m%d", i))
+				res, err = next(context.WithValue(ctx, markKey(i), id), req)
+				inner = innerClass(res, err)
+			case bRwCopy: // copy with another method and the params that method takes
+				r2 := *req
+				r2.Method = cs.targets[i]
+				r2.Params = paramsObj(cs.targets[i], id, tag+fmt.Sprintf("+m%d", i))
+				res, err = next(context.WithValue(ctx, markKey(i), id), &r2)
+				inner = innerClass(res, err)
+			case bRwIn: // same object, another method
+				req.Method = cs.targets[i]
+				req.Params = paramsObj(cs.targets[i], id, tag+fmt.Sprintf("+m%d", i))
+				res, err = next(context.WithValue(ctx, markKey(i), id), req)
+				inner = innerClass(res, err)
+			case bRwNew: // a whole new request object; only the id is taken over
+				r2 := &mcp.JSONRPCRequest{JSONRPC: "2.0", ID: req.ID, Params: paramsObj(cs.targets[i], id, tag+fmt.Sprintf("+m%d", i)),
+					Request: mcp.Request{Method: cs.targets[i]}}
+				res, err = next(context.WithValue(ctx, markKey(i), id), r2)
 				inner = innerClass(res, err)
 			case bModRes:
 				res, err = next(ctx, req)
@@ -270,7 +293,9 @@ func (cs *caseState) opts(kind kit.Kind, chain []beh, form string) kit.Opts {
 	return o
 }
 
-var notifMethods = []string{"notifications/initialized", "notifications/verif", "notifications/roots/list_changed"}
+// notifMethods: the handshake's notification, a custom and a standard one, and notifications that carry the
+// method name of a request (a known one, an unknown one): a message without id is a notification whatever it is called.
+var notifMethods = []string{"notifications/initialized", "notifications/verif", "notifications/roots/list_changed", "tools/call", "x-vendor/do", "logging/setLevel"}
 
 // register installs the tool, the prompt and the notification handlers of a case.
 func (cs *caseState) register(in *kit.Instance) {
@@ -280,7 +305,7 @@ func (cs *caseState) register(in *kit.Instance) {
 			tag, _ := req.Params.Arguments["tag"].(string)
 			marks, fm := cs.visibleMarks(ctx, nonce)
 			csid, gsid := sessOf(ctx)
-			cs.record(nonce, obsStage{mStage: mStage{Stage: "handler", Marks: marks, Tag: tag}, CS: csid, GS: gsid, ForeignMark: fm})
+			cs.record(nonce, obsStage{mStage: mStage{Stage: "handler", Meth: "tools/call", Marks: marks, Tag: tag}, CS: csid, GS: gsid, ForeignMark: fm})
 			return mcp.NewTextResult(nonce + "|" + tag), nil
 		})
 	in.RegisterPrompt(&mcp.Prompt{Name: "c15prompt", Arguments: []mcp.PromptArgument{{Name: "nonce", Required: true}, {Name: "tag"}}},
@@ -288,8 +313,12 @@ func (cs *caseState) register(in *kit.Instance) {
 			nonce, tag := req.Params.Arguments["nonce"], req.Params.Arguments["tag"]
 			marks, fm := cs.visibleMarks(ctx, nonce)
 			csid, gsid := sessOf(ctx)
-			cs.record(nonce, obsStage{mStage: mStage{Stage: "handler", Marks: marks, Tag: tag}, CS: csid, GS: gsid, ForeignMark: fm})
+			cs.record(nonce, obsStage{mStage: mStage{Stage: "handler", Meth: "prompts/get", Marks: marks, Tag: tag}, CS: csid, GS: gsid, ForeignMark: fm})
 			return &mcp.GetPromptResult{Messages: []mcp.PromptMessage{{Role: mcp.RoleUser, Content: mcp.NewTextContent(nonce + "|" + tag)}}}, nil
+		})
+	in.RegisterResource(&mcp.Resource{URI: "res://c15", Name: "c15res", MimeType: "text/plain"},
+		func(ctx context.Context, req *mcp.ReadResourceRequest) (mcp.ResourceContents, error) {
+			return mcp.TextResourceContents{URI: "res://c15", MIMEType: "text/plain", Text: "c15"}, nil
 		})
 	for _, m := range notifMethods {
 		m := m
@@ -314,14 +343,5 @@ func (cs *caseState) notifCount(m string) int {
 }
 
 func reqBody(id, method string) []byte {
-	var params string
-	switch method {
-	case "tools/call":
-		params = fmt.Sprintf(`{"name":"c15echo","arguments":{"nonce":%q,"tag":"t"}}`, id)
-	case "prompts/get":
-		params = fmt.Sprintf(`{"name":"c15prompt","arguments":{"nonce":%q,"tag":"t"}}`, id)
-	default: // ping, tools/list: the tag rides along where the method ignores it
-		params = `{"arguments":{"tag":"t"}}`
-	}
-	return []byte(fmt.Sprintf(`{"jsonrpc":"2.0","id":%q,"method":%q,"params":%s}`, id, method, params))
+	return []byte(fmt.Sprintf(`{"jsonrpc":"2.0","id":%q,"method":%q,"params":%s}`, id, method, paramsJSON(method, id, "t")))
 }
